@@ -406,6 +406,10 @@ func c13Null(a *acc) {
 				sql := strings.ReplaceAll(strings.ReplaceAll(c13SQL(ctx, p), "first_value(s)", "first_value("+col+")"), " s LIKE", " "+col+" LIKE")
 				// the LIKE keyword itself in lower and mixed case for two thirds of the patterns
 				sql = strings.Replace(sql, " LIKE ", []string{" LIKE ", " like ", " Like "}[pi%3], 1)
+				if ctx == "having" {
+					// the HAVING text itself names the keyword-bearing identifier
+					sql = strings.Replace(strings.Replace(sql, " AS f ", " AS "+col+"_f ", 1), "HAVING f ", "HAVING "+col+"_f ", 1)
+				}
 				got := map[int]int{} // id -> 1 true, 0 false/absent, -1 no boolean
 				if ctx == "having" {
 					r := detExec(sql, detOpts{Eager: true}, func(e *Env) {
